@@ -184,6 +184,14 @@ def compare_ljson(ctx, orig, back, cls, where):
                 ctx.fail("ljson_label_mask_changed", cls=cls, mech=where, label=l)
 
 
+def with_empty_label(rng, g):
+    """The same labelled group with one more label that has no member yet (legal: only the union of the labels must cover the points)."""
+    import menpo.shape as ms
+    items = list(g._labels_to_masks.items())
+    items.insert(int(rng.integers(0, len(items) + 1)), ("no_members", np.zeros(g.n_points, dtype=bool)))
+    return ms.LabelledPointUndirectedGraph(g.points, g.adjacency_matrix, OrderedDict(items))
+
+
 def w_landmarks(ctx, rng, i):
     import menpo.io as mio
     import menpo.shape as ms
@@ -205,6 +213,8 @@ def w_landmarks(ctx, rng, i):
             if cls == "LabelledPointUndirectedGraph" and rng.random() < 0.5:
                 masks = OrderedDict((k2, obj._labels_to_masks[k]) for k, k2 in zip(obj._labels_to_masks, ["zeta", "ålpha ü", "mid", "點", "0", "b b"]))
                 obj = ms.LabelledPointUndirectedGraph(obj.points, obj.adjacency_matrix, masks)
+            if cls == "LabelledPointUndirectedGraph" and rng.random() < 0.4:
+                obj = with_empty_label(rng, obj)
             groups = {"LJSON": obj}
         else:
             lm = LandmarkManager()
@@ -215,6 +225,8 @@ def w_landmarks(ctx, rng, i):
                     s.points[rng.integers(0, s.n_points), rng.integers(0, d)] = np.nan
                 if rng.random() < 0.4:
                     s.points[rng.integers(0, s.n_points), rng.integers(0, d)] = 0.0
+                if cls == "LabelledPointUndirectedGraph" and rng.random() < 0.4:
+                    s = with_empty_label(rng, s)
                 lm[["zz", "aa", "Ünï", "g 1", "0"][g] if rng.random() < 0.7 else "k%d" % g] = s
             if rng.random() < 0.3:
                 lm["empty_edges"] = ms.PointUndirectedGraph.init_from_edges(gen.points(rng, 3, d), None)
